@@ -242,6 +242,19 @@ func runC19(w *World) *Result {
 		for name := range ps.calls {
 			switch {
 			case name == "path/filepath.Join", name == "path/filepath.Base", name == "path/filepath.Ext", name == "fmt.Sprintf", name == "invoke:Extension", name == "builtin:len", strings.HasPrefix(name, "builtin:"):
+			case name == "strings.TrimSuffix":
+				// removing exactly the extension: the suffix argument is the result of filepath.Ext
+				for _, c := range ps.calls[name] {
+					ok := false
+					if len(c.Call.Args) == 2 {
+						if ec, isCall := c.Call.Args[1].(*ssa.Call); isCall && calleeName(ec) == "path/filepath.Ext" {
+							ok = true
+						}
+					}
+					if !ok {
+						problems = append(problems, "strings.TrimSuffix removes something other than the extension of the input path")
+					}
+				}
 			default:
 				if !strings.Contains(name, "parseOptions") {
 					problems = append(problems, "path also depends on "+name)
